@@ -76,10 +76,7 @@ func (m *Monitors) audit(n *Node, h int64, b *types.Block, meta *types.BlockMeta
 		bad("last-commit-hash", "LastCommitHash is not the hash of the embedded last commit")
 	}
 	// the validator set in force at height h: genesis set, proposer accumulators advanced once per committed block
-	vs := types.NewValidatorSet(cloneVals(m.nt.Vals))
-	for k := int64(1); k < h; k++ {
-		vs.IncrementAccum(1)
-	}
+	vs := m.nt.refValidators(h)
 	if !bytes.Equal(b.ValidatorsHash, vs.Hash()) {
 		bad("validators-hash", "ValidatorsHash is not the hash of this height's validator set")
 	}
